@@ -49,6 +49,9 @@ fn lifecycle(ctx: &mut Ctx) {
     // a SUB socket with a large subscription set admits peers that finish the handshake and then
     // stop reading: at teardown the replay of the subscriptions to them is still blocked in a write
     let replay_blocked = ctx.idx >= 432 && kind == Kind::Sub && matches!(prefix, 1 | 3 | 4) && ctx.plan(3) == 0;
+    // some time before the teardown an accept() call on each bound endpoint failed (descriptor
+    // shortage, an aborted connection, a signal): long over, and no reason to leave anything behind
+    let accept_fault: Option<std::io::ErrorKind> = if ctx.idx >= 432 && !fail_unlink && ctx.plan(4) == 0 { Some([std::io::ErrorKind::Other, std::io::ErrorKind::ConnectionAborted, std::io::ErrorKind::OutOfMemory, std::io::ErrorKind::Interrupted][ctx.plan(4) as usize]) } else { None };
     let backlog = ctx.idx >= 432 && matches!(kind, Kind::Pub | Kind::Xpub) && matches!(prefix, 1 | 3) && ctx.plan_bool();
     rt::task::spawn_local("app", async move {
         let mut sock = AnySock::new(kind, None);
@@ -203,6 +206,15 @@ fn lifecycle(ctx: &mut Ctx) {
             }
             rt::task::idle().await;
         }
+        if let Some(kind) = accept_fault {
+            let eps = o2.borrow().endpoints.clone();
+            for e in eps {
+                if rt::rt().net.borrow().inject_accept_error(&ep_key(&e), kind) {
+                    rt::count("fault_accept_error");
+                }
+            }
+            rt::task::idle().await;
+        }
         if fail_unlink {
             rt::rt().net.borrow_mut().fail_remove_file = 1;
         }
@@ -258,7 +270,8 @@ fn lifecycle(ctx: &mut Ctx) {
                 ctx.violation("close_swallowed_unlink_failure", format!("{tag}: removing the socket file failed but close() reported no error"));
             }
         }
-        if !fail_unlink && o.close_errors > 0 {
+        // (with an accept() failure in the history, close() may or may not mention it)
+        if !fail_unlink && accept_fault.is_none() && o.close_errors > 0 {
             ctx.violation(&key("close_reported_spurious_error"), format!("{tag}: close() returned {} errors although nothing failed", o.close_errors));
         }
         for (c, side, role) in &o.conns {
